@@ -4,12 +4,12 @@ import json, os
 HERE = os.path.dirname(os.path.dirname(os.path.abspath(__file__)))
 TECH = 'bounded symbolic execution of the crate\'s MIR into QF_BV, decided by z3 (counterexamples replayed natively through the public API)'
 CLAIMED = {
- 'C01': ('the crate\'s desugaring closures (primitive x5, bare partial, tilde, caret, hyphen) and partial_version against node-semver 7.5.4 (replaceCaret/Tilde/XRange, hyphenReplace, replaceGTE0, testSet) for every component value and x-shape: satisfies-level, bounds-level and prerelease opt-in equivalence; partial claim: text tokenisation is replaced by contract stubs', '6'),
- 'C02': ('the AND-fold of one alternative, the `||` flattening and range_set on arbitrary constructor-valid comparators (some dropped): intersection never a union, union of alternatives, NoValidRanges iff empty; partial claim: tokenisation outside', '6'),
+ 'C01': ('the crate\'s desugaring closures (primitive x5, bare partial, tilde, caret, hyphen) and partial_version against node-semver 7.5.4 (replaceCaret/Tilde/XRange, hyphenReplace, replaceGTE0, testSet) for every component value and x-shape: satisfies-level, bounds-level and prerelease opt-in equivalence, pairs of comparators through the real AND-fold; partial claim: text tokenisation is replaced by contract stubs and only spot-checked natively on generated range texts; two open known findings (known_findings.json)', '6, 12.3'),
+ 'C02': ('the AND-fold of one alternative, the `||` flattening and range_set on arbitrary constructor-valid comparators (some dropped): intersection never a union, union of alternatives, NoValidRanges iff empty; partial claim: tokenisation outside the solver claim (spot-checked natively on generated texts)', '6'),
  'C06': ('panic / overflow / unwrap / unreachable! conditions of every encoded function are unsatisfiable under the representation invariant (set operations incl. self-application, satisfies, min_version, max/min_satisfying, cmp/diff, From, desugaring, error construction, Range::any); partial claim: winnow grammar, Display, location() only spot-checked natively', '6'),
  'C15': ('depth-2 (thorough: depth-3) identities over free leaves A, B, C plus the inductive step (pointwise exactness of intersect and difference + closure of the representation invariant)', '6'),
  'C17': ('error construction of Version::parse / Range::parse under the winnow stream contract: input() is the original, offset in range and equal to the failing position, kind propagation, MaxLengthError guard; number::{closure#0} bound and error kinds; native corpus for location() and rendering; partial claim', '6'),
- 'C03': ('BoundSet::satisfies / Range::satisfies / Version::satisfies against O-sat for every constructor-valid interval x every version x every build metadata (identifier lists bounded; 1..K alternatives)', '6'),
+ 'C03': ('BoundSet::new against an independent emptiness rule, BoundSet::satisfies / Range::satisfies / Version::satisfies against O-sat for every constructor-valid interval x every version x every build metadata (identifier lists bounded; 1..K alternatives)', '6'),
  'C04': ('Version::cmp/eq/partial_cmp/hash and the derived Identifier impls against SemVer 2.0.0 section 11 on all pairs/triples (identifier lists bounded)', '6'),
  'C07': ('Range::intersect on all pairs of constructor-valid ranges with <= K alternatives x all versions: pointwise intersection, None = empty, commutative, idempotent, prerelease clauses, no panic', '6'),
  'C08': ('Range::difference likewise: pointwise difference for every alternative of B, partition with intersect, A\\A empty, no panic', '6'),
